@@ -5,6 +5,7 @@
   `lineOf` / `colOf` / `posOf` (the position function), `Spans`, `Covers`, `Tiled`
   (TwProofs/Lemmas/LexPos.lean, LexSpan.lean).
 -/
+import TwProofs.Lemmas.LexStr
 import TwProofs.Lemmas.LexSpan
 import TwProofs.Lemmas.LexLit
 
@@ -141,6 +142,36 @@ theorem token_list_is_fully_tiled (inp : Bytes) (r : LexResult) (h : tokenize in
 theorem token_literal_is_covered_text (s : Lx) (hne : s.rest ≠ []) (t : Token) (h : (stepAt s).1 = .tok t)
     (hs : t.ty ≠ .STR) (hh : t.ty ≠ .HTML) : ∃ n, t.lit = s.rest.take n ∧ (stepAt s).2.rest = s.rest.drop n :=
   stepAt_lit s hne t h hs hh
+
+/-- **string tokens**: in code, at a quote, a string that is terminated before the end of the
+    input becomes one STR token that covers exactly the opening quote, the text and the closing
+    quote (`n` bytes of the input), and whose literal is the text with every escaped quote `\q`
+    replaced by `q` — the same quote character on both ends, single or double -/
+theorem string_token_is_the_quoted_text (s : Lx) (hh : s.isHTML = false) (q : Byte) (after : Bytes)
+    (hq : q = 34 ∨ q = 39) (hr : s.rest = q :: after) (hterm : (strSpan s.rest).1 ≤ s.rest.length) :
+    ∃ t n raw, stepAt s = (.tok t, (stepAt s).2) ∧ t.ty = .STR ∧ s.rest.take n = q :: (raw ++ [q]) ∧
+      t.lit = replaceAll raw [92, q] [q] ∧ (stepAt s).2.rest = s.rest.drop n := by
+  have hc : s.char = q := by simp [Lx.char, hr]
+  have hne : s.rest ≠ [] := by rw [hr]; simp
+  have hb : ¬ (s.char = 123 ∧ s.peek = 123) := by
+    rw [hc]; rcases hq with h | h <;> subst h <;> simp
+  have hstep := stepAt_code s hh hne hb
+  have hcs : codeStepDesc s = strDesc s := by
+    unfold codeStepDesc
+    have : ¬ (s.char == 125 && s.peek == 125 && s.braces == 0) = true := by
+      rw [hc]; rcases hq with h | h <;> subst h <;> simp
+    rw [if_neg this]
+    exact codeDesc_string s (by rw [hc]; exact hq)
+  obtain ⟨h1, h2, h3⟩ := strDesc_shape s q after hr hterm
+  refine ⟨(strDesc s).emit.1, (strDesc s).n, (strSpan s.rest).2, ?_, ?_, h2, ?_, ?_⟩
+  · rw [hstep, hcs]
+  · unfold TokDesc.emit; rw [emit_ty]; exact h1
+  · unfold TokDesc.emit; rw [emit_lit]; exact h3
+  · rw [hstep, hcs]; unfold TokDesc.emit; rw [emit_rest]; rfl
+
+example : (match tokenize (b "{{ 'it\\'s' }}") with
+    | some r => r.toks.map (fun t => (t.ty, t.lit)) == [(.LBRACES, b "{{"), (.STR, b "it's"), (.RBRACES, b "}}"), (.EOF, [])]
+    | none => false) = true := by decide
 
 /-! non-vacuity: a concrete input with multi-line text, a string with a newline, a comment -/
 
